@@ -102,6 +102,8 @@ package quickfix
 
 //@ func (f FIXString) Write [C14]
 //@   ensures @value len(result) == len(f) && (forall i :: 0 <= i && i < len(f) ==> result[i] == f[i])
+//@   ensures @str string(result) == f
+//@   ensures @fresh fresh(result) || len(f) == 0
 //@   modifies fresh E.uint8
 
 //@ func (f *FIXBytes) Read [C09,C14]
@@ -211,6 +213,7 @@ package quickfix
 //@   ensures @order old(fmorder(m)) ==> fmorder(m)
 //@   ensures @same m.tagLookup == old(m.tagLookup) && m.rwLock == old(m.rwLock) && m.compare == old(m.compare)
 //@   ensures @tagsarr (arr(m.tags) == old(arr(m.tags)) || (fresh(m.tags) && allocated(m.tags))) && (arr(m.tags) == 0 ==> m.tags == old(m.tags))
+//@   ensures @alloc valid(m.tagLookup[tag])
 
 //@ func (m *FieldMap) init [C10]
 //@   typedheap
@@ -259,6 +262,8 @@ package quickfix
 //@   ensures @ret result == m
 //@   ensures @tagsarr (arr(m.tags) == old(arr(m.tags)) || (fresh(m.tags) && allocated(m.tags))) && (arr(m.tags) == 0 ==> m.tags == old(m.tags))
 //@   ensures @wf fmsafe(m) && (old(fmorder(m)) ==> fmwf(m)) && m.compare == old(m.compare)
+//@   ensures @alloc valid(m.tagLookup[tag])
+//@   ensures @slice (old(has(m.tagLookup, tag)) ==> m.tagLookup[tag] == old(m.tagLookup[tag])) && (!old(has(m.tagLookup, tag)) ==> fresh(m.tagLookup[tag]))
 
 // replacing one cell changes the count by (new cell == t) - (old cell == t)
 //@ lemma cntTag_upd [C10]: induction n: forall n int, r1 introw, r2 introw, p int, j int, t Tag :: (p <= j && j < p+n && (forall q :: p <= q && q < p+n && q != j ==> rowat(r1, q) == rowat(r2, q))) ==> cntTag(r2, p, n, t) == cntTag(r1, p, n, t) - (rowat(r1, j) == t ? 1 : 0) + (rowat(r2, j) == t ? 1 : 0)
@@ -450,6 +455,7 @@ package quickfix
 //@   ensures @order old(fmorder(m)) ==> fmorder(m)
 //@   ensures @tagsarr (arr(m.tags) == old(arr(m.tags)) || (fresh(m.tags) && allocated(m.tags))) && (arr(m.tags) == 0 ==> m.tags == old(m.tags))
 //@   ensures @wf fmsafe(m) && (old(fmorder(m)) ==> fmwf(m)) && m.compare == old(m.compare)
+//@   ensures @alloc valid(m.tagLookup[tag])
 
 //@ func (m *FieldMap) SetString [C10]
 //@   requires fmsafe(m)
@@ -460,6 +466,7 @@ package quickfix
 //@   ensures @order old(fmorder(m)) ==> fmorder(m)
 //@   ensures @tagsarr (arr(m.tags) == old(arr(m.tags)) || (fresh(m.tags) && allocated(m.tags))) && (arr(m.tags) == 0 ==> m.tags == old(m.tags))
 //@   ensures @wf fmsafe(m) && (old(fmorder(m)) ==> fmwf(m)) && m.compare == old(m.compare)
+//@   ensures @alloc valid(m.tagLookup[tag])
 
 //@ func (m *FieldMap) SetBool [C10]
 //@   requires fmsafe(m)
@@ -469,6 +476,7 @@ package quickfix
 //@   ensures @order old(fmorder(m)) ==> fmorder(m)
 //@   ensures @tagsarr (arr(m.tags) == old(arr(m.tags)) || (fresh(m.tags) && allocated(m.tags))) && (arr(m.tags) == 0 ==> m.tags == old(m.tags))
 //@   ensures @wf fmsafe(m) && (old(fmorder(m)) ==> fmwf(m)) && m.compare == old(m.compare)
+//@   ensures @alloc valid(m.tagLookup[tag])
 
 //@ func (m *FieldMap) SetField [C10]
 //@   inline
@@ -699,6 +707,8 @@ package quickfix
 //@   typedheap
 //@   ensures @fresh result != nil && fresh(result)
 //@   ensures @wf msgwf(result) && msgsafe(result)
+//@   ensures @notags arr(result.Header.tags) == 0 && arr(result.Body.tags) == 0 && arr(result.Trailer.tags) == 0
+//@   ensures @freshmaps fresh(result.Header.tagLookup) && fresh(result.Body.tagLookup) && fresh(result.Trailer.tagLookup)
 //@   ensures @empty (forall t Tag :: !has(result.Header.tagLookup, t) && !has(result.Body.tagLookup, t) && !has(result.Trailer.tagLookup, t)) && result.rawMessage == nil && result.fields == nil
 //@   modifies fresh H.quickfix.Message.*, fresh H.quickfix.FieldMap.*, fresh H.quickfix.tagSort.*, fresh H.sync.RWMutex.*, fresh H.sync.Mutex.*, fresh MH.quickfix.Tag.quickfix.field, fresh H.time.Time.*
 
